@@ -398,6 +398,30 @@ def _explore(out, tier, seed, facts, replay, tmp):
             want_a = sorted({" ".join("%g" % meta_a[k_](s_) for k_ in fields_) for s_ in range(3)})
             if texts_a != want_a:
                 out.violation("annotation-fields", "verif %s annotates the points with %r; the fields %r of the three locations are %r" % (short_a, texts_a, fields_, want_a), {"argv": argv_a})
+        # -a with a missing score in the middle: every VALID point is annotated, the points after the gap included
+        argv_m = ["verif", os.path.join(tmp, "miss_a.txt"), os.path.join(tmp, "miss_b.txt"), "-m", "mae", "-x", "leadtime", "-a", "-f", os.path.join(tmp, "annot_m.png")]
+        st, info = runner.run(argv_m)
+        if st == "ok":
+            fig_m = runner.cap.get("fig")
+            ax_m = fig_m.axes[0]
+            valid_pts = sum(int(np.sum(~np.isnan(np.asarray(l_.get_ydata(), float)))) for l_ in ax_m.get_lines() if l_.get_label() in ("miss_a.txt", "miss_b.txt"))
+            if len(ax_m.texts) != valid_pts:
+                out.violation("annotation-count", "verif miss_a.txt miss_b.txt -m mae -x leadtime -a (lead time 6 of the first file has no valid case): %d annotations for %d plotted points"
+                              % (len(ax_m.texts), valid_pts), {"argv": argv_m})
+        else:
+            out.violation("annotation:%s" % st, "verif miss_a.txt miss_b.txt -m mae -x leadtime -a ends with %s %s" % (st, info), {"argv": argv_m})
+        # -xticks / -yticks / -xticklabels on a diagram that manages its own axes (droc, droc0)
+        for diag_ in ("droc", "droc0"):
+            argv_d = ["verif", os.path.join(tmp, "full_a.txt"), os.path.join(tmp, "full_b.txt"), "-m", diag_, "-r", "2", "-xticks", "0,0.25,0.75,1", "-yticks", "0,0.5,1",
+                      "-f", os.path.join(tmp, "ticks_d.png")]
+            st, info = runner.run(argv_d)
+            if st != "ok":
+                out.violation("ticks:%s" % st, "verif ... -m %s -r 2 -xticks 0,0.25,0.75,1 -yticks 0,0.5,1 ends with %s %s" % (diag_, st, info), {"argv": argv_d})
+                continue
+            ax_d = runner.cap.get("fig").axes[0]
+            gx_, gy_ = [round(float(t_), 6) for t_ in ax_d.get_xticks()], [round(float(t_), 6) for t_ in ax_d.get_yticks()]
+            if gx_ != [0.0, 0.25, 0.75, 1.0] or gy_ != [0.0, 0.5, 1.0]:
+                out.violation("not-honoured:%s:-xticks" % diag_, "verif ... -m %s -r 2 -xticks 0,0.25,0.75,1 -yticks 0,0.5,1: the x ticks are %r, the y ticks %r" % (diag_, gx_, gy_), {"argv": argv_d})
         for b0 in range(0, n, 120):
             cases, exprs = [], []
             for ci in range(b0, min(n, b0 + 120)):
